@@ -19,7 +19,9 @@ Correspondence (model vs implementation, pure functions, compared directly):
   corr:C17:ALIAS    type handed on by `type_alias_structure_factory` == model `aliasResolve`
   corr:C17:MANGLE   `__name__` of the generated structure hook     == model `mangle`
 Recorded findings F27-F29 are recognised by the *shape of the input* (predicates below); their Lean negative witnesses
-are replayed on the real code in every run.  (F30 — string annotations of generic attrs classes — and F33 —
+are replayed on the real code in every run.  F40 (recursive TypedDicts: the outcome depended on the call-stack depth,
+see `DepthScan`; found by this check, repaired in /repo) is not about generics: the oracle compares depth-stable
+outcomes and reports any depth dependence as a violation of its own.  (F30 — string annotations of generic attrs classes — and F33 —
 unstructuring ignoring closed bindings of the base — were found by this check and are repaired in /repo.)
 """
 from __future__ import annotations
@@ -778,6 +780,34 @@ def obs(r, W):
     return ["ok", canon_val(r[1], W)] if r[0] == "ok" else ["err"]
 
 
+def _at_depth(k, f):
+    return f() if k == 0 else _at_depth(k - 1, f)
+
+
+class DepthScan:
+    """Found by this check and repaired in /repo (F40): TypedDict structure hooks have no `already_generating` set, so a
+    TypedDict that refers to itself (`Self`) ends the recursion by really overflowing the Python stack;
+    `MultiStrategyDispatch` used to swallow a RecursionError raised inside `functools.singledispatch`
+    (`except Exception: pass`) and reported the leaf type as unsupported instead — depending only on the caller's
+    stack depth.  For such worlds every structure call is therefore evaluated at 10 consecutive depths: the comparison
+    with the copy uses the depth-stable (majority) outcome, and any depth dependence is itself a VIOLATION."""
+
+    def __init__(self, W, active):
+        self.W = W
+        self.active = active
+        self.varied = None  # first (description, outcomes) seen
+
+    def attempt(self, f, what=""):
+        if not self.active:
+            return attempt(f)
+        rs = [attempt(lambda k=k: _at_depth(k, f)) for k in range(10)]
+        keys = [json.dumps(obs(r, self.W)) for r in rs]
+        best = max(sorted(set(keys)), key=keys.count)
+        if len(set(keys)) > 1 and self.varied is None:
+            self.varied = (what, [k[:40] for k in keys])
+        return rs[keys.index(best)]
+
+
 # =====================================================================================================
 # finding predicates (on the SHAPE of the input, never on the failure)
 # =====================================================================================================
@@ -874,8 +904,31 @@ class _SpyConverter(Converter):
         return super().get_unstructure_hook(t, cache_result)
 
 
+    def get_structure_hook(self, t, cache_result=True):
+        if getattr(self, "spy_on", False):
+            self.seen.append(t)
+            return _spy_struct_hook
+        return super().get_structure_hook(t, cache_result)
+
+
 def _spy_hook(v):
     return v
+
+
+def _spy_struct_hook(v, t):
+    return v
+
+
+def structure_types_real(tgt, td, detailed):
+    """the types for which the structure generator itself asks for handlers (independent of whether hooks for those
+    types can be created): the field types it binds, in field order"""
+    from cattrs.gen import make_dict_structure_fn
+    from cattrs.gen.typeddicts import make_dict_structure_fn as make_td_structure_fn
+    spy = _SpyConverter(detailed_validation=detailed)
+    spy.seen = []
+    spy.spy_on = True
+    (make_td_structure_fn if td else make_dict_structure_fn)(tgt, spy, _cattrs_detailed_validation=detailed)
+    return spy.seen
 
 
 def unstructure_types_real(tgt, td):
@@ -912,6 +965,7 @@ def eval_world(chk, drv, spec, n_payloads, corr_fail, label=None):
     fails = []
     chain = W.chain_sx()
     td = kind == "typeddict"
+    scan = DepthScan(W, td and any(has_self(a) for a in _all_field_anns(spec)))
     shared = {True: Converter(detailed_validation=True), False: Converter(detailed_validation=False)}
     first_results = {}
     for ai, args0 in enumerate(spec["argsets"]):
@@ -968,12 +1022,30 @@ def eval_world(chk, drv, spec, n_payloads, corr_fail, label=None):
             else:
                 corr_fail.append(("GENMAP", dict(case0, op="genmap"), "raised " + ri[1], rm))
 
+        # ---------- correspondence: RESOLVE, on the generator alone (both templates): the types it asks handlers for
+        for det in (True, False):
+            gop = ("STRUCTGENTD" if det else "STRUCTGENTDFAST") if td else "STRUCTGEN"
+            rmg = drv.ask("%s %s %s" % (gop, chain, tg_sx))
+            rs = attempt(lambda: structure_types_real(tgt, td, det))
+            chk.note("corr:RESOLVE-generator")
+            gcase = dict(case0, op="resolve", detailed=det)
+            if rmg == "refused":
+                if rs[0] == "ok":
+                    corr_fail.append(("RESOLVE", gcase, "generator did not refuse", rmg))
+            elif rs[0] != "ok":
+                corr_fail.append(("RESOLVE", gcase, "generator raised " + rs[1], rmg))
+            else:
+                want_g = [json.dumps(W.canon(W.real(strip_nr(a)))) for _, a in pairs_of(parse_sx(rmg)[1])]
+                got_g = [json.dumps(W.canon(t)) for t in rs[1]]
+                if want_g != got_g:
+                    corr_fail.append(("RESOLVE", gcase, json.dumps(got_g), rmg))
+
         # ---------- correspondence: RESOLVE (types bound into the real hook)
         convd = Converter(detailed_validation=True)
-        rh = attempt(lambda: convd.get_structure_hook(tgt))
+        rh = scan.attempt(lambda: convd.get_structure_hook(tgt), "get_structure_hook(%s)" % tgt)
         # (the real hook inspected is the detailed-validation one; for TypedDicts that template rewrites twice)
         rm = drv.ask("%s %s %s" % ("STRUCTGENTD" if td else "STRUCTGEN", chain, tg_sx))
-        refuses = drv.ask("REFUSES %s %s" % (chain, tg_sx)) == "1"
+        refuses = drv.ask("%s %s %s" % ("REFUSESTD" if td else "REFUSES", chain, tg_sx)) == "1"
         chk.note("corr:RESOLVE")
         if rm == "refused":
             if rh[0] == "ok":
@@ -996,8 +1068,14 @@ def eval_world(chk, drv, spec, n_payloads, corr_fail, label=None):
                 else:
                     chk.note("resolve-observable-unavailable")
             elif not refuses:
-                # real refused, model did not
-                corr_fail.append(("RESOLVE", dict(case0, op="resolve"), "raised " + rh[1], rm))
+                # the hook could not be created although the generator itself accepts the class (checked above) and no
+                # type variable is left: a handler for one of the bound types cannot be created.  Inside the theorems'
+                # scope that is a broken correspondence; in a recorded finding's shape it is the finding's consequence
+                # (e.g. F29: `list[Self]` in `G[int]` is bound as `list[G]`, and the bare `G` is refused)
+                if in_scope:
+                    corr_fail.append(("RESOLVE", dict(case0, op="resolve"), "raised " + rh[1], rm))
+                else:
+                    chk.note("hook-creation-failed-downstream-of-a-finding-shape")
 
         # ---------- correspondence: RESOLVEUN (types whose hooks the unstructure generator asks for)
         ru = attempt(lambda: unstructure_types_real(tgt, td))
@@ -1047,13 +1125,13 @@ def eval_world(chk, drv, spec, n_payloads, corr_fail, label=None):
             for pk, pl in pls:
                 outs = {}
                 for cn, conv in (("shared", shared[det]), ("fresh", Converter(detailed_validation=det))):
-                    rG = attempt(lambda: conv.structure(pl, tgt))
+                    rG = scan.attempt(lambda: conv.structure(pl, tgt), "structure(%r, %s)" % (pl, tgt))
                     oG = obs(rG, W)
                     if rG[0] == "ok":
                         uG = attempt(lambda: conv.unstructure(rG[1], tgt))
                         oG.append(["ok", canon_val(uG[1], W)] if uG[0] == "ok" else ["err"])
                     outs[cn] = oG
-                rM = attempt(lambda: fresh_copy.structure(pl, Copy))
+                rM = scan.attempt(lambda: fresh_copy.structure(pl, Copy), "structure(%r, <copy of %s>)" % (pl, tgt))
                 oM = obs(rM, W)
                 if rM[0] == "ok":
                     uM = attempt(lambda: fresh_copy.unstructure(rM[1], Copy))
@@ -1075,7 +1153,7 @@ def eval_world(chk, drv, spec, n_payloads, corr_fail, label=None):
             for det in (True, False):
                 if (det, "first") in first_results:
                     pl, tgt1, before = first_results[(det, "first")]
-                    rG = attempt(lambda: shared[det].structure(pl, tgt1))
+                    rG = scan.attempt(lambda: shared[det].structure(pl, tgt1))
                     oG = obs(rG, W)
                     if rG[0] == "ok":
                         uG = attempt(lambda: shared[det].unstructure(rG[1], tgt1))
@@ -1108,7 +1186,7 @@ def eval_world(chk, drv, spec, n_payloads, corr_fail, label=None):
                     t_unb = W.target(mixed)
                     tgu = "(alias " + " ".join(ann_sx(a) for a in mixed) + ")"
                 for det in (True, False):
-                    r = attempt(lambda: Converter(detailed_validation=det).structure(pl, t_unb))
+                    r = scan.attempt(lambda: Converter(detailed_validation=det).structure(pl, t_unb))
                     chk.note("unbound:" + unb, "unbound-result:" + r[0])
                     chk.evaluations += 1
                     mref = drv.ask("REFUSES %s %s" % (chain, tgu))
@@ -1117,6 +1195,10 @@ def eval_world(chk, drv, spec, n_payloads, corr_fail, label=None):
                                       % (t_unb, pl, r[1]), dict(case0, op="refusal", payload=repr(pl), detailed=det, in_scope=in_scope)))
                     elif mref != "1" and in_scope:
                         corr_fail.append(("RESOLVE", dict(case0, op="resolve"), "refused", "model does not refuse " + tgu))
+    if scan.varied is not None:
+        chk.note("depth-dependent-world")
+        fails.append(("C17 oracle (determinism): the outcome of %s depends on the call-stack depth: %s" % scan.varied,
+                      {"spec": spec, "op": "depth-dependence", "label": label}))
     for k in [k for k in linecache.cache if k.startswith("<cattrs generated")]:
         del linecache.cache[k]
     return fails
@@ -1276,6 +1358,11 @@ WITNESSES = [
      {"shape": "F28-capture", "kind": "attrs", "style": "generic", "target": "alias", "occ": ["F28-capture"],
       "levels": [_lv("G", ["T"], [("z", TV("T"))], [LF("int")]), _lv("B", ["T"], [("a", TV("T"))])],
       "argsets": [[LF("str")], [LF("float")]]}),
+    ("F28", "C17_mono_composed_witness / C17_td_second_pass_witness",
+     # a TypedDict: the detailed template's second rewrite composes the bindings, the fast template does not
+     {"shape": "F28-composed", "kind": "typeddict", "style": "generic", "target": "alias", "occ": ["F28-composed"],
+      "levels": [_lv("G", ["T"], [("z", TV("T"))], [APP("list", TV("T"))]), _lv("B", ["W"], [("a", TV("W"))])],
+      "argsets": [[LF("int")], [LF("str")]]}),
     ("F28", "C17_mono_deep_witness",
      {"shape": "F28-deep", "kind": "attrs", "style": "generic", "target": "bare", "occ": ["F28-deep"],
       "levels": [_lv("C", [], [("z", LF("int"))], [LF("int")], gb=False), _lv("H", ["T"], [("a", TV("T"))], [LF("str")]),
@@ -1286,6 +1373,25 @@ WITNESSES = [
       "levels": [_lv("SG", ["T"], [("a", TV("T")), ("nxt", OPT(SELF))])],
       "argsets": [[LF("int")], [LF("str")]]}),
 ]
+
+
+def depth_probe(chk):
+    """F40 (repaired) must stay repaired: a self-referential TypedDict structured by fresh converters at 10 consecutive
+    stack depths gives one outcome"""
+    spec = {"shape": "F40-recursive-typeddict", "kind": "typeddict", "style": "generic", "target": "bare", "occ": [],
+            "levels": [_lv("RT", [], [("f1", APP("list", SELF)), ("f3", LF("bool"))], gb=False)], "argsets": [None]}
+    W = World(spec)
+    pl = {"f1": [{"f1": [], "f3": False}], "f3": 0}
+    keys = []
+    for k in range(10):
+        r = attempt(lambda: _at_depth(k, lambda: Converter(detailed_validation=False).structure(pl, W.cls)))
+        keys.append(json.dumps(obs(r, W))[:40])
+        chk.evaluations += 1
+    if len(set(keys)) > 1:
+        return [("C17 oracle (determinism): the outcome of structure(%r, <TypedDict RT: f1: list[Self], f3: bool>) on a fresh "
+                 "converter depends on the call-stack depth: %s" % (pl, keys),
+                 {"spec": W.spec, "op": "depth-dependence", "label": "F40"})]
+    return []
 
 
 def report(chk, fails):
@@ -1316,6 +1422,9 @@ def run(chk: framework.Check):
             print(f"STALE-FINDING: property=C17 {fid} witness {thm} no longer reproduces on the implementation")
             chk.note("stale-finding:" + fid)
         all_fails += fails
+
+    all_fails += depth_probe(chk)
+    chk.note("probe:F40-depth")
 
     # 2. deep_copy_with / generic aliases, directly
     dcw_round(chk, drv, 400 if quick else 4000, corr_fail)
